@@ -126,6 +126,11 @@ func keyLabel(store string, k []byte) string {
 	}
 	if n >= 4 {
 		s := string(k[:n])
+		// textual prefixes of the form "<module>_<what>_prefix_" are followed by raw address bytes, which may
+		// themselves look like lower-case letters or '_': the label ends at the marker, whatever follows
+		if i := strings.Index(s, "_prefix_"); i >= 0 {
+			return store + "/" + s[:i+len("_prefix_")]
+		}
 		if i := strings.LastIndexByte(s, '_'); i >= 3 {
 			return store + "/" + s[:i+1]
 		}
